@@ -40,6 +40,7 @@ func VerifSetup() {
 	Unmarshal([]byte(`{}`), &vsT{})
 	Unmarshal([]byte(`{}`), &vtScalars{})
 	Unmarshal([]byte(`{}`), &vtTags{})
+	Unmarshal([]byte(`{}`), &vsI{})
 }
 
 // smallInt: a symbolic integer in [-9,9] (integer formatting itself is C16's
